@@ -1,16 +1,19 @@
 #!/bin/bash
-# usage: tools/apply_seeded.sh <worktree of /repo> <patch.diff>
+# usage: tools/apply_seeded.sh <worktree of /repo> <patch.diff> [property]
 # Applies a seeded change to a (clean) worktree. Seeded changes were written against earlier heads of /repo
 # (recorded as "applies_to" in their meta.json); later hook and fix commits moved a few lines. Tried in order:
 # plain apply; 3-way apply (the patch names its base blobs); math.rs from before the ntru_gen probe lines;
 # and finally the base commit 45d4d17 itself (prints BASE: the caller must then switch off sub-checks that
 # report defects repaired after that commit, i.e. VERIF_C08_NO_FORK=1).
-W="$1"; P="$2"
+W="$1"; P="$2"; PROP="${3:-}"
+# Changes to C08 live in the first lines of sign(), which the D7 fix (salt from OsRng) rewrote: a 3-way
+# merge of such a change with the fix applies cleanly but leaves the salt with OsRng, i.e. it silently
+# repairs the seeded defect. Those changes are tested on their base commit instead.
 clean() { git -C "$W" reset -q --hard; git -C "$W" clean -fdq; }
 clean
 if git -C "$W" apply "$P" 2>/dev/null; then echo PLAIN; exit 0; fi
 clean
-if git -C "$W" apply --3way "$P" >/dev/null 2>&1 && ! git -C "$W" diff --name-only --diff-filter=U | grep -q .; then git -C "$W" reset -q; echo THREEWAY; exit 0; fi
+if [ "$PROP" != C08 ] && git -C "$W" apply --3way "$P" >/dev/null 2>&1 && ! git -C "$W" diff --name-only --diff-filter=U | grep -q .; then git -C "$W" reset -q; echo THREEWAY; exit 0; fi
 clean
 git -C "$W" checkout -q b834386 -- falcon-rust/src/math.rs 2>/dev/null
 if git -C "$W" apply "$P" 2>/dev/null; then git -C "$W" reset -q; echo OLDMATH; exit 0; fi
